@@ -11,7 +11,7 @@ class C04(InterpProp):
     DESIGN_REF = "DESIGN.md §7 C04"
     QUICK_N = 300
     THOROUGH_N = 12000
-    LEVEL_TEXT = "PARTIAL. Coq theorems about the interpreter model: in EVERY tick a Watch / Alarm becomes activated only if its condition evaluated true without raising in that tick's environment (or it had been forced); in EVERY state of EVERY run a started line whose parent is a Watch (outside Alarm and Macro bodies) has an ACTIVATED parent -- a Watch body runs only after its condition held (stack invariant over all generators); the lines of a Watch body outside Alarm and Macro bodies start at most once in every run; after every tick of every run no Watch / Alarm whose block has ended has a handler left in the interrupt map (with /repo fix bd56ff75). That a body line of an ALARM starts only while the Alarm is activated, that a Watch keeps its activation, and that nothing of a body starts after the enclosing block ended are decided by the Coq monitor on the real interpreter. Cancel / force: 20% of the cases are methods with cancel / force requests against the run log, run on the request model of C12 (coq/model/C12.v: a cancelled Watch never runs its body, a request that is not offered changes nothing) with its correspondence and monitor."
+    LEVEL_TEXT = "PARTIAL. Coq theorems about the interpreter model: in EVERY tick a Watch / Alarm becomes activated only if its condition evaluated true without raising in that tick's environment (or it had been forced); in EVERY state of EVERY run a started line whose parent is a Watch (outside Alarm and Macro bodies) has an ACTIVATED parent -- a Watch body runs only after its condition held (stack invariant over all generators), also in runs with cancel / force requests at any ticks, in which from the state where a Watch is cancelled and not activated on no line of its body ever starts; the lines of a Watch body outside Alarm and Macro bodies start at most once in every run; after every tick of every run no Watch / Alarm whose block has ended has a handler left in the interrupt map (with /repo fix bd56ff75). That a body line of an ALARM starts only while the Alarm is activated, that a Watch keeps its activation, and that nothing of a body starts after the enclosing block ended are decided by the Coq monitor on the real interpreter. Cancel / force: 20% of the cases are methods with cancel / force requests against the run log, run on the request model of C12 (coq/model/C12.v: a cancelled Watch never runs its body, a request that is not offered changes nothing) with its correspondence and monitor."
     LEVEL_NOTE = "Theorems are about coq/model/Interp.v (with macros; injection, cancel / force and live edits are the subject of C14, C12 and C01). Tie: as for C05 -- tick-by-tick correspondence of the model with the real PInterpreter under scripted environments on every node's state fields, the interrupt map, the Block tag, scheduled commands and errors; the property's Coq monitor runs on the real observations. No axioms."
     TECHNIQUE = 'Coq proof (per-node update relation closed under every frame transition of the interpreter model, lifted to ticks and runs; rely / guarantee stack invariant over every frame of every generator) + tick-by-tick correspondence with the real PInterpreter + Coq monitor on the real node states'
     RULE = '80%: methods and environments as for C05 (watches and alarms, also nested, with per-condition truth probabilities 0-1 and 1% evaluation errors); non-trivial = at least 10 ticks and three completed lines; 20%: methods with cancel / force requests as for C12 (non-trivial = one request carried out and one refused)'
